@@ -617,3 +617,32 @@ Theorem C08_model_is_source_V0_step : forall g d orc s, length (V0 s) = c_ndd g 
   prog_eq (to_prog (src_V0_step g d s)) (step_prog g d orc BV0 s).
 Proof. exact src_V0_step_is_model. Qed.
 Print Assumptions C08_model_is_source_V0_step.
+
+(* the horseshoe precision steps with the default option local_shrinkage = True (the vectorised gamma draws of the
+   auxiliaries and precisions, the counts N1 + N2, both clippings); the drawn arrays are read at the shape of the scale
+   argument, as numpy returns them *)
+Theorem C08_model_is_source_prec_V0_step : forall g d orc s, length (phi0 s) = c_ndd g -> length (V0 s) = c_ndd g ->
+  prog_eq (to_prog (src_prec_V0_step g d orc true s)) (step_prog g d orc BPrecV0 s).
+Proof. exact src_prec_V0_step_is_model. Qed.
+Print Assumptions C08_model_is_source_prec_V0_step.
+
+Theorem C08_model_is_source_prec_V2_step : forall g d orc s,
+  shape2 (V2 s) (c_ndd g) (c_D g) -> shape2 (phi2 s) (c_ndd g) (c_D g) -> length (eta2 s) = c_D g ->
+  prog_eq (to_prog (src_prec_V2_step g d orc true s)) (step_prog g d orc BPrecV2 s).
+Proof. exact src_prec_V2_step_is_model. Qed.
+Print Assumptions C08_model_is_source_prec_V2_step.
+
+Theorem C08_model_is_source_prec_V1_step : forall g d orc s,
+  shape2 (V1 s) (c_ndd g) (c_D g) -> shape2 (phi1 s) (c_ndd g) (c_D g) -> length (eta1 s) = c_D g ->
+  prog_eq (to_prog (src_prec_V1_step g d orc true s)) (step_prog g d orc BPrecV1 s).
+Proof. exact src_prec_V1_step_is_model. Qed.
+Print Assumptions C08_model_is_source_prec_V1_step.
+
+(* the multiplicative gamma process with the default option mult_gamma_proc = True: component 0, the loop over the
+   components 1 .. D-1 (slices of cumprod(gam) and of W**2, shape 2 resp. 3 + n_clines (D - d) / 2), tau = cumprod(gam),
+   clipping.  D = 0 makes the code fail at gam[0]. *)
+Theorem C08_model_is_source_prec_W_step : forall g d orc s,
+  shape2 (W s) (c_ncl g) (c_D g) -> length (gam s) = c_D g -> (0 < c_D g)%nat ->
+  prog_eq (to_prog (src_prec_W_step g d orc true s)) (step_prog g d orc BPrecW s).
+Proof. exact src_prec_W_step_is_model. Qed.
+Print Assumptions C08_model_is_source_prec_W_step.
